@@ -231,6 +231,9 @@ pub fn run(ctx: &Ctx) {
     ctx.assume("a sign glued to the following digits belongs to that literal; numbers inside variable definitions/uses are re-labelled by design and not checked for exactness");
     ctx.run_table(&Spans, "regressions", regressions(), false);
     ctx.run_generated(&Spans, ctx.tier.pick(30_000, 1_000_000), case_strategy);
+    if ctx.tier == crate::engine::Tier::Thorough {
+        crate::fuzzdec::campaign(ctx, "C17", "c17_spans");
+    }
 }
 
 pub fn replay(w: &mut Worker, sub: &str, case: &serde_json::Value) -> Option<Verdict> {
